@@ -127,7 +127,7 @@ fn extra_letters() -> Vec<Letter> {
 
 pub fn run(ctx: &Ctx) -> i32 {
     let shared = Shared::new("C08", ctx);
-    flow_models(ctx, &shared, C08, FlowSpec { quick_depth: 3, thorough_depth: 4, extra: extra_letters(), deep: true, seeded: true, t3: false, valuesets: false });
+    flow_models(ctx, &shared, C08, FlowSpec { quick_depth: 3, thorough_depth: 4, extra: extra_letters(), deep: true, heavy_oracle: true, seeded: true, t3: false, valuesets: false });
     finish(
         ctx,
         &shared,
